@@ -215,6 +215,9 @@ def run_case(cfgd: dict, actions: list[tuple], epilogue: bool = True) -> dict:
             dec['start'] += 1
         if it[1] in ('Depleted', 'DepletionTimeout', 'Fail'):
             dec[it[1]] += 1
+    for k, n in drv.spawn_stats.items():
+        dec['insert->spawn: ' + k] += n
+    dec['quiescence markers'] += sum(1 for it in trace if it[0] == 'Q')
     if any(qc['pending'] for qc in drv.quiescent_checks):
         dec['limit-saturated-at-quiescence'] += 1
     res['decisions'] = dict(dec)
